@@ -21,7 +21,7 @@ Section SchemaInd.
   Hypothesis HMap : forall k v, P k -> P v -> P (SMap k v).
   Hypothesis HIface : forall alts, Forall (fun a : N * schema => P (snd a)) alts -> P (SIface alts).
   Hypothesis HByteArrO : forall ptr n code key, P (SByteArrO ptr n code key).
-  Hypothesis HBytesO : forall code key, P (SBytesO code key).
+  Hypothesis HBytesO : forall code key named, P (SBytesO code key named).
 
   Fixpoint schema_ind' (s : schema) : P s :=
     match s with
@@ -45,7 +45,7 @@ Section SchemaInd.
               | (c, x) :: r => Forall_cons (c, x) (schema_ind' x) (go r)
               end) alts)
     | SByteArrO ptr n code key => HByteArrO ptr n code key
-    | SBytesO code key => HBytesO code key
+    | SBytesO code key named => HBytesO code key named
     end.
 End SchemaInd.
 
